@@ -78,9 +78,11 @@ def norm_scenario(p: dict) -> dict:
         sc[key] = [int(x) for x in seq(sc[key])]
     for key in ("x0", "x0c", "off"):
         sc[key] = [dict(x) for x in seq(sc[key])]
+    sc["srcs"] = [str(x) for x in seq(sc["srcs"])]
     sc["prot"] = [{"dur": int(s["dur"]), "A": dict(s["A"])} for s in seq(sc["prot"])]
     return {"sc": sc, "kin": p["kin"], "As": seq(p["As"]), "data": [seq(g) for g in seq(p["data"])],
             "pred": [seq(g) for g in seq(p["pred"])], "generated": bool(p["generated"]),
+            "minit": [dict(x) for x in seq(p["minit"])], "y0": [dict(x) for x in seq(p["y0"])],
             "exp": {nm: {scl: dict(e) for scl, e in fn_to_dict(by).items()} for nm, by in fn_to_dict(p["exp"]).items()}}
 
 
@@ -109,12 +111,31 @@ def build(scn: dict):
         p_true = {f"k{i + 1}": float(sc["jt"][i]) for i in range(n)}
         p_cand = {f"k{i + 1}": float(sc["jc"][i]) for i in range(n)}
         return m, "steady_state", kw, p_true, p_cand
+    # shapes whose prediction depends on the initial values: where each variable's value comes from is part of the
+    # scenario (FitModels.tla: srcs, ModelInit, Y0Val); a fitted variable is a key of p0
     names = [f"x{i + 1}" for i in range(n)]
     x0 = [float(fr(x)) for x in sc["x0"]]
     x0c = [float(fr(x)) for x in sc["x0c"]]
-    decoy = 1.0
+    minit = [float(fr(x)) for x in scn["minit"]]
+    y0 = {names[i]: float(fr(v)) for i, v in enumerate(scn["y0"]) if int(v["d"]) != 0}
+    if y0:
+        kw["y0"] = y0
+    fitted = [i for i in range(n) if sc["srcs"][i] in ("p0", "p0y0")]
+    if sc["shape"] == "ssc":
+        for i in range(n):
+            m.add_variable(names[i], minit[i])
+            m.add_parameter(f"k{i + 1}", float(sc["jt"][i]))
+        m.add_reaction("v1", mass_action, args=["k1", "x1"], stoichiometry={"x1": -1.0, "x2": 1.0})
+        m.add_reaction("v2", mass_action, args=["k2", "x2"], stoichiometry={"x2": -1.0, "x1": 1.0})
+        kw["data"] = pd.Series({names[i]: float(fr(scn["data"][0][i])) for i in range(n)})
+        p_true = {f"k{i + 1}": float(sc["jt"][i]) for i in range(n)}
+        p_cand = {f"k{i + 1}": float(sc["jc"][i]) for i in range(n)}
+        for i in fitted:
+            p_true[names[i]] = x0[i]
+            p_cand[names[i]] = x0c[i]
+        return m, "steady_state", kw, p_true, p_cand
     for i in range(n):
-        m.add_variable(names[i], x0[i] if sc["src"] == "model" else decoy)
+        m.add_variable(names[i], minit[i])
         a_true = float(fr(scn["As"][i])) * LN2 if sc["shape"] == "tc" else float(fr(sc["prot"][0]["A"])) * LN2
         m.add_parameter(f"a{i + 1}", a_true)
         m.add_parameter(f"k{i + 1}", sc["jt"][i] * LN2)
@@ -124,12 +145,9 @@ def build(scn: dict):
     kw["data"] = pd.DataFrame({names[i]: [float(fr(v)) for v in scn["data"][i]] for i in range(n)}, index=times)
     p_true = {f"k{i + 1}": sc["jt"][i] * LN2 for i in range(n)}
     p_cand = {f"k{i + 1}": sc["jc"][i] * LN2 for i in range(n)}
-    if sc["src"] == "y0":
-        kw["y0"] = {names[i]: x0[i] for i in range(n)}
-    elif sc["src"] == "p0":
-        for i in range(n):
-            p_true[names[i]] = x0[i]
-            p_cand[names[i]] = x0c[i]
+    for i in fitted:
+        p_true[names[i]] = x0[i]
+        p_cand[names[i]] = x0c[i]
     if sc["shape"] == "ptc":
         kw["protocol"] = make_protocol([(float(s["dur"]), {"a1": float(fr(s["A"])) * LN2}) for s in sc["prot"]])
         return m, "protocol_time_course", kw, p_true, p_cand
@@ -166,9 +184,29 @@ def evaluate_at(model, kind: str, kw: dict, point: dict, loss_name: str, scaled:
     return float(val.loss)
 
 
-def content_of(model) -> list[str]:
-    """The caller-visible content the property speaks of, as exact strings."""
-    out = [f"p:{k}={float(v).hex()}" for k, v in sorted(model.get_parameter_values().items())]
+def _hex(v) -> str:
+    try:
+        return float(v).hex()
+    except (TypeError, ValueError):
+        return repr(v)
+
+
+def content_of(model, invalidate: bool = False) -> list[str]:
+    """The caller-visible content the property speaks of, as exact strings.
+
+    Two views: what the model STORES (raw parameters / variables) and what it COMPUTES WITH (the getters).  A model
+    that built its cache before a call keeps answering the getters from the cache even if its stored content was
+    changed behind its back, so the 'after' view is taken with ``invalidate=True``: a no-op edit through the public
+    API (update_parameter(name, same value)) first makes the model recompute from what it stores."""
+    if invalidate:
+        raw = model.get_raw_parameters()
+        for k, par in raw.items():
+            if isinstance(par.value, (int, float)):
+                model.update_parameter(k, par.value)
+                break
+    out = [f"rp:{k}={_hex(p.value)}" for k, p in sorted(model.get_raw_parameters().items())]
+    out += [f"rv:{k}={_hex(v.initial_value)}" for k, v in sorted(model.get_raw_variables().items())]
+    out += [f"p:{k}={float(v).hex()}" for k, v in sorted(model.get_parameter_values().items())]
     out += [f"v:{k}={float(v).hex()}" for k, v in sorted(model.get_initial_conditions().items())]
     return out
 
